@@ -38,6 +38,20 @@ pub const OP_SPEC_CONSTANT: u32 = 50;
 pub const OP_SPEC_CONSTANT_OP: u32 = 52;
 pub const OP_SWITCH: u32 = 251;
 
+thread_local! {
+    static FIRST_WINS: std::cell::Cell<bool> = const { std::cell::Cell::new(false) };
+}
+
+/// Runs `f` with the width model in "first declaration wins" mode. The statement does not say
+/// which declaration decides when an id is declared twice; checks on binaries with
+/// re-declared ids accept either consistent reading (default: the latest preceding one).
+pub fn with_first_wins<T>(f: impl FnOnce() -> T) -> T {
+    FIRST_WINS.with(|c| c.set(true));
+    let r = f();
+    FIRST_WINS.with(|c| c.set(false));
+    r
+}
+
 impl TyCtx {
     pub fn new() -> TyCtx {
         TyCtx::default()
@@ -69,6 +83,9 @@ impl TyCtx {
         operand_words: &[u32],
     ) {
         let Some(rid) = rid else { return };
+        if FIRST_WINS.with(|c| c.get()) && self.map.contains_key(&rid) {
+            return;
+        }
         if opname == "TypeInt" {
             if operand_words.len() >= 2 {
                 self.map
